@@ -147,4 +147,16 @@ def run(ck):
 
 
 def replay(ck, rp):
+    r = rp.get("replay")
+    if isinstance(r, dict) and r.get("harness") == "c10_names":
+        # a sanitizer abort of the sanitiser/lookup harness: same seed and case count again
+        exe = vlib.build_harness("c10_names", ["c10_names.c"])
+        d = scratch_dir(ck, "replay")
+        rc, out, err = vlib.run_exe(exe, [r["args"][0], r["args"][1], d], timeout=900)
+        shutil.rmtree(d, ignore_errors=True)
+        print(err[-3000:])
+        print("c10_names %s %s -> rc=%d" % (r["args"][0], r["args"][1], rc))
+        if rc != 0:
+            print("VIOLATION property=C10 replay=(same file) [%s]" % vlib.sanitizer_signature(err))
+        return 1 if rc != 0 else 0
     return c10_opens.replay(ck, rp)
